@@ -571,11 +571,242 @@ fn bitmap_seeds(out: &mut Vec<GenSeed>) {
     out.push(GenSeed { name: "gen:bitmap-cbdt".into(), bytes: f.build(), tuples: vec![], shape: false });
 }
 
+// ------------------------------------------------------------------------------------------
+// reference cycles: every place where font data names other records of the same kind
+
+/// sbix table: per strike (ppem, glyph records); a record is (graphic type, data) or None
+fn sbix_table(strikes: &[(u16, Vec<Option<([u8; 4], Vec<u8>)>>)]) -> Vec<u8> {
+    use crate::fontgen::buf::Buf;
+    let mut bodies: Vec<Vec<u8>> = Vec::new();
+    for (ppem, glyphs) in strikes {
+        let mut b = Buf::new();
+        b.u16(*ppem).u16(72);
+        let mut off = 4 + 4 * (glyphs.len() as u32 + 1);
+        let mut data = Buf::new();
+        for g in glyphs {
+            b.u32(off);
+            if let Some((ty, d)) = g {
+                data.i16(0).i16(0).tag(ty).bytes(d);
+                off += 8 + d.len() as u32;
+            }
+        }
+        b.u32(off);
+        b.bytes(&data.0);
+        bodies.push(b.into_vec());
+    }
+    let mut t = Buf::new();
+    t.u16(1).u16(1).u32(strikes.len() as u32);
+    let mut off = 8 + 4 * strikes.len();
+    for b in &bodies {
+        t.u32(off as u32);
+        off += b.len();
+    }
+    for b in &bodies {
+        t.bytes(b);
+    }
+    t.into_vec()
+}
+
+fn cycle_seeds(out: &mut Vec<GenSeed>) {
+    use super::faults::{call_gsubr, cff_index, cff_table, glyf_composite, gvar_empty, rewire, wght_axis, with_cff};
+    use crate::fontgen::buf::Buf;
+    let plain = |name: &str, bytes: Vec<u8>, shape: bool| GenSeed { name: name.to_string(), bytes, tuples: vec![], shape };
+
+    // sbix `dupe` records: 2-cycle, 3-cycle, chain to a bitmap, chain out of range, self, chain
+    // to an empty record, truncated dupe data
+    {
+        let png: Vec<u8> = vec![0x89, b'P', b'N', b'G', 0x0D, 0x0A, 0x1A, 0x0A, 1, 2, 3, 4];
+        let dupe = |g: u16| Some((*b"dupe", g.to_be_bytes().to_vec()));
+        let glyphs = vec![
+            None,
+            Some((*b"png ", png.clone())),
+            dupe(3),
+            dupe(2),
+            dupe(5),
+            dupe(6),
+            dupe(4),
+            dupe(8),
+            dupe(1),
+            dupe(0xFFF0),
+            dupe(10),
+            dupe(12),
+            None,
+            Some((*b"dupe", vec![0])),
+        ];
+        let mut second = glyphs.clone();
+        second[2] = dupe(4); // 2 -> 4 -> 5 -> 6 -> 4
+        let mut f = BasicFont::with_glyphs(14);
+        for i in 0..13u32 {
+            f.cmap.insert(0x41 + i, (i + 1) as u16);
+        }
+        f.extra.push((*b"sbix", sbix_table(&[(20, glyphs), (40, second)])));
+        out.push(plain("gen:sbix-dupe-cycles", f.build(), false));
+    }
+
+    // composite glyphs: 2- and 3-cycles, also reached only through a second-level component;
+    // static and variable (instancing recomputes composite bounding boxes)
+    for variable in [false, true] {
+        let mut c = BasicFont::with_glyphs(12);
+        c.cmap.insert(0x41, 11);
+        c.glyph_records[2] = glyf_composite(&[(3, 0, 0)]);
+        c.glyph_records[3] = glyf_composite(&[(1, 0, 0), (2, 1, 1)]);
+        c.glyph_records[4] = glyf_composite(&[(5, 0, 0)]);
+        c.glyph_records[5] = glyf_composite(&[(6, 0, 0)]);
+        c.glyph_records[6] = glyf_composite(&[(1, 2, 2), (4, 0, 0)]);
+        c.glyph_records[7] = glyf_composite(&[(8, 0, 0)]);
+        c.glyph_records[8] = glyf_composite(&[(1, 0, 0), (2, 0, 0)]);
+        c.glyph_records[9] = glyf_composite(&[(10, 0, 0)]);
+        c.glyph_records[10] = glyf_composite(&[(4, 0, 0)]);
+        c.glyph_records[11] = glyf_composite(&[(1, 0, 0), (7, 0, 0), (9, 3, 3)]);
+        if variable {
+            c.extra.push((*b"fvar", crate::fontgen::var::fvar_table(&wght_axis(), &[], 0)));
+            c.extra.push((*b"gvar", gvar_empty(1, 12)));
+        }
+        out.push(plain(if variable { "gen:composite-cycles-var" } else { "gen:composite-cycles" }, c.build(), false));
+    }
+
+    if let Some(base) = crate::engine::fixtures::read("aots/base.otf") {
+        // CFF: two seac glyphs naming each other (Standard Encoding 32 = space = glyph 1,
+        // 33 = exclam = glyph 2 under the ISOAdobe charset)
+        let notdef = vec![139 + 50, 139, 139, 21, 139 + 30, 139, 5, 14];
+        let seac = |code: u8| vec![139, 139, 139 + code, 139 + code, 14];
+        if let Some(b) = with_cff(&base, cff_table(&[], &[notdef.clone(), seac(33), seac(32), seac(34), seac(32)]), 5) {
+            out.push(plain("gen:cff-seac-mutual", b, false));
+        }
+        // CFF: global subroutines calling each other (0 <-> 1, 2 -> 2)
+        let g0 = [call_gsubr(1, 1), vec![11]].concat();
+        let g1 = [call_gsubr(0, 1), vec![11]].concat();
+        let g2 = [call_gsubr(2, 1), vec![11]].concat();
+        let glyph = |i: i32| [vec![139, 139, 21], call_gsubr(i, 1), vec![14]].concat();
+        if let Some(b) = with_cff(&base, cff_table(&[g0, g1, g2], &[notdef.clone(), glyph(0), glyph(2)]), 3) {
+            out.push(plain("gen:cff-gsubr-cycle", b, false));
+        }
+        // CFF with a local subroutine calling a global one that calls it back: Private DICT
+        // with a Subrs operator, Local Subr INDEX directly behind the Private DICT
+        {
+            let call_local = |idx: i32| vec![(idx - 107 + 139) as u8, 10];
+            let gs = cff_index(&[[call_local(0), vec![11]].concat()]);
+            let ls = cff_index(&[[call_gsubr(0, 1), vec![11]].concat(), vec![11]]);
+            let cs = cff_index(&[notdef.clone(), [vec![139, 139, 21], call_local(0), vec![14]].concat(), [vec![139, 139, 21], call_local(1), vec![14]].concat()]);
+            let name = cff_index(&[b"Gen".to_vec()]);
+            let strings = cff_index(&[]);
+            let int5 = |b: &mut Buf, v: i32| {
+                b.u8(29).i32(v);
+            };
+            let cs_off = 4 + name.len() + (2 + 1 + 4 + 17) + strings.len() + gs.len();
+            let private_off = cs_off + cs.len();
+            let mut td = Buf::new();
+            int5(&mut td, cs_off as i32);
+            td.u8(17);
+            int5(&mut td, 8);
+            int5(&mut td, private_off as i32);
+            td.u8(18);
+            let mut t = Buf::new();
+            t.u8(1).u8(0).u8(4).u8(2);
+            t.bytes(&name).bytes(&cff_index(&[td.into_vec()])).bytes(&strings).bytes(&gs).bytes(&cs);
+            // Private DICT (8 bytes): defaultWidthX 0, Subrs 8
+            t.u8(139).u8(20);
+            int5(&mut t, 8);
+            t.u8(19);
+            t.bytes(&ls);
+            if let Some(b) = with_cff(&base, t.into_vec(), 3) {
+                out.push(plain("gen:cff-local-global-cycle", b, false));
+            }
+        }
+        // CFF2 with the same local <-> global cycle (no return / endchar operators in CFF2)
+        {
+            let index32 = |objs: &[Vec<u8>]| -> Vec<u8> {
+                let mut b = Buf::new();
+                b.u32(objs.len() as u32);
+                if objs.is_empty() {
+                    return b.into_vec();
+                }
+                b.u8(1);
+                let mut off = 1u8;
+                b.u8(off);
+                for o in objs {
+                    off += o.len() as u8;
+                    b.u8(off);
+                }
+                for o in objs {
+                    b.bytes(o);
+                }
+                b.into_vec()
+            };
+            let call_local = |idx: i32| vec![(idx - 107 + 139) as u8, 10];
+            let gs = index32(&[call_local(0)]);
+            let ls = index32(&[call_gsubr(0, 1), vec![139, 139, 21]]);
+            let cs = index32(&[vec![139, 139, 21], [vec![139, 139, 21], call_local(0)].concat(), [vec![139, 139, 21], call_local(1)].concat()]);
+            let int5 = |b: &mut Buf, v: i32| {
+                b.u8(29).i32(v);
+            };
+            // layout: header(5) topdict(13) gsubrs charstrings fdarray privatedict localsubrs
+            let top_len = 13usize;
+            let cs_off = 5 + top_len + gs.len();
+            let fda_off = cs_off + cs.len();
+            // Font DICT: Private size(5) offset(5) op(1) = 11 bytes
+            let fd_len = 11usize;
+            let fda_len = 4 + 1 + 2 + fd_len;
+            let priv_off = fda_off + fda_len;
+            let mut fd = Buf::new();
+            int5(&mut fd, 6);
+            int5(&mut fd, priv_off as i32);
+            fd.u8(18);
+            let mut t = Buf::new();
+            t.u8(2).u8(0).u8(5).u16(top_len as u16);
+            int5(&mut t, cs_off as i32);
+            t.u8(17);
+            int5(&mut t, fda_off as i32);
+            t.u8(12).u8(36);
+            t.bytes(&gs).bytes(&cs).bytes(&index32(&[fd.into_vec()]));
+            // Private DICT (6 bytes): Subrs 6
+            int5(&mut t, 6);
+            t.u8(19);
+            t.bytes(&ls);
+            if let Some(b) = otto_with(&base, &[b"CFF "], vec![(*b"CFF2", t.into_vec())], 3) {
+                out.push(plain("gen:cff2-local-global-cycle", b, false));
+            }
+        }
+    }
+
+    // nested lookups naming each other: rewire the sequence lookup records of generated GSUB /
+    // GPOS fonts (2-cycle, 3-cycle, self reference) with my own reader of the contextual formats
+    let sources: Vec<(String, Vec<u8>)> = out
+        .iter()
+        .filter(|s| s.name.starts_with("gen:gsub-") || s.name.starts_with("gen:gpos-") || s.name.starts_with("gen:c02:"))
+        .map(|s| (s.name.clone(), s.bytes.clone()))
+        .collect();
+    let mut made = 0;
+    for (name, bytes) in sources {
+        for (n, label) in [(2usize, "cycle2"), (3, "cycle3"), (1, "self")] {
+            if made >= 12 {
+                break;
+            }
+            let mut b = bytes.clone();
+            // kinds are tried in turn until one rewires something
+            let mut done = false;
+            for kind_r in [0u32, 0x5555_5555, 0xAAAA_AAAA, 0xFFFF_FFFF] {
+                let mut c = bytes.clone();
+                let desc = rewire(&mut c, kind_r, &vec![0u32, 0x8000_0000, 0xFFFF_FFFF][..n], None);
+                if (desc.starts_with("rewire gsub-lookup:") || desc.starts_with("rewire gpos-lookup:")) && desc.matches("->").count() == n && c != bytes {
+                    b = c;
+                    done = true;
+                    break;
+                }
+            }
+            if done {
+                out.push(plain(&format!("gen:lookup-{}:{}", label, name.trim_start_matches("gen:")), b, true));
+                made += 1;
+            }
+        }
+    }
+}
+
 /// All generated seeds of this module, in a fixed order.
 pub fn all() -> Vec<GenSeed> {
     let mut out = Vec::new();
     panics::set_quiet(true);
-    for f in [cmap_seeds, glyf_seeds, variation_seeds, cff_seeds, layout_seeds, container_seeds, bitmap_seeds] {
+    for f in [cmap_seeds, glyf_seeds, variation_seeds, cff_seeds, layout_seeds, container_seeds, bitmap_seeds, cycle_seeds] {
         let before = out.len();
         if catch_unwind(AssertUnwindSafe(|| f(&mut out))).is_err() {
             out.truncate(before);
